@@ -79,12 +79,14 @@ partial def specOf (j : Json) : Option Spec :=
     | [a, b, s] => some (.slice a b s)
     | _ => none
   | some "count" => do some (.count (← str? (getD j "name")))
-  | some "runif" => do some (.runIf (← predOf (← str? (getD j "p"))) (← specs "inner"))
+  | some "runif" =>
+    if (getD j "bad").getBool?.toOption == some true then (specs "inner").map Spec.runIfBad
+    else do some (.runIf (← predOf (← str? (getD j "p"))) (← specs "inner"))
   | some "reverse" => some .reverse
   | some "end" => some .end_
   | some "acc" => (accOfJson j).map Spec.acc
   | some "syn" => do
-    some (.syn (← attrsOf (getD j "attrs")) (← bool? (getD j "call")) (← bool? (getD j "nodata")))
+    some (.syn (← attrsOf (getD j "attrs")) (← bool? (getD j "call")) ((bool? (getD j "nodata")).getD false))
   | some "junk" => some .junk
   | some "setctx" => some .setContext
   | _ => none
@@ -134,37 +136,143 @@ def modeJson {μ : Type} (f : μ → String) : Except Exc μ → Json
 def optStr (j : Json) : Option (Option String) :=
   if j.isNull then some none else (str? j).map some
 
+def excOf : String → Option Exc
+  | "LenaTypeError" => some .lenaTypeError
+  | "LenaValueError" => some .lenaValueError
+  | "LenaStopFill" => some .lenaStopFill
+  | "Other:TypeError" => some .typeError
+  | "Other:ValueError" => some .valueError
+  | "Other:IndexError" => some .indexError
+  | "Other:AttributeError" => some .attributeError
+  | _ => none
+
+def optExc (j : Json) : Option (Option Exc) :=
+  if j.isNull then some none else ((str? j).bind excOf).map some
+
+def optIntJ (j : Json) : Option (Option Int) :=
+  if j.isNull then some none else (int? j).map some
+
+def taggedJson (r : Except Exc (Strm (Nat × Value))) : Json :=
+  match r with
+  | .error e => initErr e
+  | .ok s =>
+    Json.mkObj [("r", ofList (fun (p : Nat × Value) => Json.arr #[ofNat p.1, valueJson p.2]) s.vals),
+      ("t", termJson s.term)]
+
+/-- the element descriptions before the first fill/compute data element, and that element -/
+def preSpecsOf : List Spec → Option (List Spec × Spec)
+  | [] => none
+  | s :: ss =>
+    match s.toObj with
+    | .error _ => none
+    | .ok o =>
+      if o.hasNoData then preSpecsOf ss
+      else if o.caps.isFillComputeEl then some ([], s)
+      else (preSpecsOf ss).map (fun (p, a) => (s :: p, a))
+
+def isAccSpec : Spec → Bool
+  | .acc _ => true
+  | _ => false
+
+/-- `seqRun c flow` of the chain of `FillComputeSeq(*args)`, reported when the chain is within the property
+(in-scope pre-processing elements, a pure fill/compute accumulator) -/
+def seqChainJson (args : List Spec) (flow : List Value) : Json :=
+  match preSpecsOf args with
+  | none => Json.null
+  | some (pre, a) =>
+    if pre.all Spec.inScopeB && isAccSpec a then
+      match driveSeqOfChain args flow with
+      | none => Json.null
+      | some s => strmJson s
+    else Json.null
+
+/-- the right-hand sides of `count_dual` for a chain `pre* Count(name)` (in-scope `pre`, nothing after it):
+`countRunSpec name ys` and `[(len ys, lastCtx ys + {name: len ys})]` for the delivered values `ys` -/
+def dualJson (args : List Spec) (flow : List Value) : Json :=
+  match preSpecsOf args with
+  | some (pre, .count name) =>
+    if pre.all Spec.inScopeB && args.length == pre.length + 1 then
+      match Spec.toObjs pre with
+      | .error _ => Json.null
+      | .ok os =>
+        match toPres os with
+        | .error _ => Json.null
+        | .ok ps =>
+          if preSafeB ps flow then
+            match composeS (ps.map Pre.run) (.ofList flow) with
+            | .ok s =>
+              let ys := s.vals
+              Json.mkObj [("seq", ofList valueJson (countRunSpec name ys)),
+                ("fill", ofList valueJson [.tup [.int ys.length, .dict (dictSet (lastCtx ys) name (.int ys.length))]])]
+            | .error _ => Json.null
+          else Json.null
+    else Json.null
+  | _ => Json.null
+
+def inScopeJson (args : List Spec) : Json :=
+  match preSpecsOf args with
+  | none => Json.null
+  | some (pre, _) => Json.arr (pre.map (fun s => Json.bool s.inScopeB)).toArray
+
+def fillResJson : FillRes (List Value) → Json
+  | .ok s => Json.mkObj [("got", ofList valueJson s), ("end", "ok")]
+  | .stop s => Json.mkObj [("got", ofList valueJson s), ("end", "stop")]
+  | .err e => Json.mkObj [("end", e.name)]
+
 def handle (j : Json) : Json :=
   match str? (getD j "op") with
   | some "chain" =>
     match specsOf (getD j "args"), valuesOf (getD j "flow"), (arr? (getD j "bufsizes")).bind (fun a => a.toList.mapM optNat) with
     | some args, some flow, some bs =>
       Json.mkObj [("seq", outJson (driveSeq args flow)), ("fill", outJson (driveFill args flow)),
-        ("split", Json.arr (bs.map (splitJson args flow)).toArray), ("safe", safeJson args flow)]
+        ("split", Json.arr (bs.map (splitJson args flow)).toArray), ("safe", safeJson args flow),
+        ("seqchain", seqChainJson args flow), ("inscope", inScopeJson args), ("dual", dualJson args flow)]
     | _, _, _ => err "bad chain args"
   | some "split" =>
-    match (arr? (getD j "branches")).bind (fun a => a.toList.mapM specsOf), optNat (getD j "bufsize"),
+    match (arr? (getD j "branches")).bind (fun a => a.toList.mapM specsOf), optIntJ (getD j "bufsize"),
         valuesOf (getD j "flow") with
     | some bs, some b, some flow =>
-      match driveSplit bs b flow with
-      | .error e => initErr e
-      | .ok s =>
-        Json.mkObj [("r", ofList (fun (p : Nat × Value) => Json.arr #[ofNat p.1, valueJson p.2]) s.vals),
-          ("t", termJson s.term)]
+      let isList := (getD j "islist").getBool?.toOption != some false
+      taggedJson (driveSplitI isList bs b flow)
     | _, _, _ => err "bad split args"
+  | some "splitfc" =>
+    match (arr? (getD j "branches")).bind (fun a => a.toList.mapM specsOf), valuesOf (getD j "flow") with
+    | some bs, some flow => taggedJson (driveSplitFill bs flow)
+    | _, _ => err "bad splitfc args"
+  | some "fillseq_init" =>
+    match specsOf (getD j "args") with
+    | some args =>
+      match driveFillSeqInit args with
+      | .error e => initErr e
+      | .ok () => Json.mkObj [("ok", Json.bool true)]
+    | none => err "bad fillseq_init args"
+  | some "stage" =>
+    match specOf (getD j "el"), valuesOf (getD j "flow"), optExc (getD j "term") with
+    | some sp, some flow, some term =>
+      match driveStage sp flow term with
+      | .error e => initErr e
+      | .ok (f, r) => Json.mkObj [("fill", fillResJson f), ("run", strmJson r)]
+    | _, _, _ => err "bad stage args"
   | some "adapter" =>
     match attrsOf (getD j "attrs"), bool? (getD j "callable"), bool? (getD j "split"), bool? (getD j "none"),
         optStr (getD j "name"), optStr (getD j "name2"), str? (getD j "adapter") with
     | some attrs, some callable, some isSplit, some isNone, some name, some name2, some ad =>
       let c := capsOf attrs callable isSplit isNone
+      let withSpec (m : Json) (acc : Bool) (bind : String) : Json :=
+        m.mergeObj (Json.mkObj [("spec_accepts", Json.bool acc), ("spec_binding", bind)])
       match ad with
-      | "Call" => modeJson modeCall (mkCall c name)
-      | "SourceEl" => modeJson modeCall (mkSourceEl c name)
-      | "Run" => modeJson modeRun (mkRun c name)
-      | "FillInto" => modeJson modeFillInto (mkFillInto c name)
+      | "Call" => withSpec (modeJson modeCall (mkCall c name)) (callAccepts c name) (modeCall (callBinding name))
+      | "SourceEl" =>
+        withSpec (modeJson modeCall (mkSourceEl c name)) (sourceElAccepts c name) (modeCall (sourceElBinding c name))
+      | "Run" => withSpec (modeJson modeRun (mkRun c name)) (runAccepts c name) (modeRun (runBinding c name))
+      | "FillInto" =>
+        withSpec (modeJson modeFillInto (mkFillInto c name)) (fillIntoAccepts c name)
+          (modeFillInto (fillIntoBinding c name))
       | "FillCompute" =>
-        modeJson (fun (p : String × String) => p.1 ++ "," ++ p.2)
-          (mkFillCompute c (name.getD "fill") (name2.getD "compute"))
+        let f := name.getD "fill"
+        let cp := name2.getD "compute"
+        withSpec (modeJson (fun (p : String × String) => p.1 ++ "," ++ p.2) (mkFillCompute c f cp))
+          (fillComputeAccepts c f cp) ((fillComputeBinding c f cp).1 ++ "," ++ (fillComputeBinding c f cp).2)
       | _ => err "unknown adapter"
     | _, _, _, _, _, _, _ => err "bad adapter args"
   | _ => err "unknown op"
